@@ -21,6 +21,17 @@ CHECKS = {
     },
 }
 
+CHECKS['C05'] = {
+    'level': 'proof',
+    'units': ['tables'],
+    'kani': [],
+    'technique': 'contract-based deductive verification (Verus) of the real conversion tables against registry spec functions transcribed from the RFCs/IANA; Kani for derived ordering and text form',
+    'level_text': 'Complete over the finite domains: each From/TryFrom table of /repo is verified to equal a registry spec function transcribed independently from the RFCs (so a pair of numbers swapped consistently in both directions still fails), and the identity / one-to-one lemmas are proved over all u16 / u8 / usize numbers.',
+    'level_note': 'Trusted: Verus/Z3/vstd; the transcription in spec/registry.py is the reference (written from RFC 7252/7641/7959/7967/8132/8516/8613/8768 and the IANA content-format registry).',
+    'trusted': [T_VERUS, 'spec/registry.py is the independent transcription of the registries (hand written from the RFCs)', T_ARITH],
+    'explanation': 'From<u16>/From<CoapOption>, TryFrom<usize>/From<ContentFormat>, ObserveOption pair, From<u8>/From<MessageClass>, Header::get_type/set_type verified against registry spec functions; one-to-one lemmas.',
+}
+
 HOOK_COMMITS = []
 
 NOT_APPLICABLE = [
